@@ -55,13 +55,25 @@ func c05Schema(soft bool) *j.Schema {
 
 var c05Entries = []string{"UnmarshalDocument", "UnmarshalResource", "UnmarshalPartialResource", "UnmarshalCollection", "UnmarshalIdentifier", "UnmarshalIdentifiers", "NewRequest-POST", "NewRequest-PATCH", "NewRequest-GET"}
 
+// the harness's own reading of the schema (exact names), not the library's lookups
+func c05TypeNamed(schema *j.Schema, name string) j.Type {
+	for _, t := range schema.Types {
+		if t.Name == name {
+			return t
+		}
+	}
+	return j.Type{}
+}
+
+func c05Declares(schema *j.Schema, name string) bool { return name != "" && c05TypeNamed(schema, name).Name == name }
+
 // conform checks that a resource only holds on-schema data.
 func conform(schema *j.Schema, r j.Resource) string {
 	if r == nil {
 		return "nil resource in result"
 	}
 	name := r.GetType().Name
-	st := schema.GetType(name)
+	st := c05TypeNamed(schema, name)
 	if name == "" || st.Name == "" {
 		return fmt.Sprintf("resource of type %q, which is not in the schema", name)
 	}
@@ -177,7 +189,7 @@ func c05Call(x *mc.Exec, schema *j.Schema, entry string, payload []byte, gen str
 			var id j.Identifier
 			id, err = j.UnmarshalIdentifier(payload, schema)
 			present = id != (j.Identifier{})
-			if err == nil && !schema.HasType(id.Type) {
+			if err == nil && !c05Declares(schema, id.Type) {
 				bad = fmt.Sprintf("identifier of type %q, not in the schema", id.Type)
 			}
 		case "UnmarshalIdentifiers":
@@ -185,7 +197,7 @@ func c05Call(x *mc.Exec, schema *j.Schema, entry string, payload []byte, gen str
 			ids, err = j.UnmarshalIdentifiers(payload, schema)
 			present = err == nil && ids != nil || len(ids) > 0
 			for _, id := range ids {
-				if err == nil && !schema.HasType(id.Type) {
+				if err == nil && !c05Declares(schema, id.Type) {
 					bad = fmt.Sprintf("identifier of type %q, not in the schema", id.Type)
 				}
 			}
@@ -530,6 +542,9 @@ func c05Misc(x *mc.Exec) {
 			`{"type":"opts","id":"x"}`, `{"data":{"type":"opts","id":"x","attributes":{"name,omitempty":"n","count,string":3}}}`, `{"type":"opts","id":"x","attributes":{"name":"n"}}`,
 			`{"type":"opts","id":"x","relationships":{"owner,omitempty":{"data":{"type":"u","id":"1"}},"tags,omitempty":{"data":[{"type":"u","id":"1"}]}}}`,
 			`{"data":[{"type":"opts","id":"x","relationships":{"tags,omitempty":{"data":null}}}]}`, `{"type":"opts","id":"x","relationships":{"tags":{"data":[]}}}`,
+			// type names that differ from declared ones by letter case only
+			`{"type":"T","id":"1"}`, `[{"type":"U","id":"1"},{"type":"u","id":"2"}]`, `{"data":{"type":"T","id":"x"}}`, `{"data":[{"type":"Opts","id":"x"}]}`,
+			`{"type":"t","id":"x","relationships":{"one":{"data":{"type":"U","id":"1"}}}}`,
 			// the same identifier / member twice
 			`[{"type":"u","id":"1"},{"type":"u","id":"1"}]`, `[{"type":"u","id":"1"},{"type":"t","id":"1"},{"type":"u","id":"1"},{"type":"u","id":"1"}]`,
 			`{"data":[{"type":"t","id":"x"},{"type":"t","id":"x"}]}`, `{"type":"t","id":"x","relationships":{"many":{"data":[{"type":"u","id":"1"},{"type":"u","id":"1"}]}}}`,
